@@ -178,6 +178,64 @@ func cmdWire(args []string) {
 				}
 			}
 		}
+		// error texts that echo client bytes: names, keys and fields with CR / LF in them.  Each probe is
+		// followed by a PING on the same connection, which must be answered by exactly +PONG.
+		crlf := "a\r\nb"
+		echo := [][]string{
+			{crlf}, {"GET" + crlf, "k"}, {"GET\r\n"}, {"SET", crlf}, {"GET", crlf, crlf},
+			{"SET", "ek" + crlf, "v"}, {"LPUSH", "ek" + crlf, "x"}, {"HSET", "ek" + crlf, "f", "v"}, {"SADD", "ek" + crlf, "m"},
+			{"ZADD", "ek" + crlf, "1", "m"}, {"INCR", "ek" + crlf},
+			{"HSET", "eh", "f" + crlf, "notanumber"}, {"HINCRBY", "eh", "f" + crlf, "1"}, {"HINCRBYFLOAT", "eh", "f" + crlf, "1.5"},
+			{"HINCRBY", "eh", "f", crlf}, {"INCRBY", "en", crlf}, {"EXPIRE", "ek", crlf}, {"SET", "ek", "v", crlf},
+			{"LPUSH", "el", "x"}, {"LINDEX", "el", crlf}, {"LSET", "el", crlf, "y"}, {"ZADD", "ez", crlf, "m"},
+			{"ZRANGE", "ez", crlf, "1"}, {"SELECT", crlf}, {"SWAPDB", crlf, "0"}, {"ACL", "SETUSER", "u" + crlf, "+@bogus" + crlf},
+			{"ACL", "GETUSER", "u" + crlf}, {"ACL", crlf}, {"AUTH", "u" + crlf, "p"}, {"HELLO", crlf}, {"PUBSUB", crlf},
+			{"COMMAND", crlf}, {"MODULE", "LOAD", crlf}, {"RENAME", "nokey" + crlf, "x"}, {"GETRANGE", "ek", crlf, "1"},
+			{"SETRANGE", "ek", crlf, "x"}, {"SPOP", "es", crlf}, {"SRANDMEMBER", "es", crlf}, {"SINTERCARD", "es", "LIMIT", crlf},
+			{"ZINCRBY", "ez", crlf, "m"}, {"OBJECTFREQ", crlf}, {"TOUCH" + crlf, "k"},
+			// replies that carry names the client chose
+			{"FLUSHALL"}, {"SET", "ek" + crlf, "v"}, {"RANDOMKEY"}, {"TYPE", "ek" + crlf}, {"GET", "ek" + crlf}, {"MGET", "ek" + crlf},
+			{"ACL", "SETUSER", "u" + crlf, "on", "nopass", "~k" + crlf, "&c" + crlf, "+get"}, {"ACL", "USERS"}, {"ACL", "LIST"},
+			{"ACL", "GETUSER", "u" + crlf}, {"ACL", "WHOAMI"}, {"ACL", "DELUSER", "u" + crlf},
+			{"HSET", "eh2", "f" + crlf, "v" + crlf}, {"HGETALL", "eh2"}, {"HKEYS", "eh2"}, {"HVALS", "eh2"}, {"HRANDFIELD", "eh2", "1", "WITHVALUES"},
+			{"SADD", "es2", "m" + crlf}, {"SMEMBERS", "es2"}, {"SRANDMEMBER", "es2"}, {"SPOP", "es2"},
+			{"ZADD", "ez2", "1", "m" + crlf}, {"ZRANGE", "ez2", "0", "-1", "WITHSCORES"}, {"ZPOPMIN", "ez2"}, {"ZRANDMEMBER", "ez2", "1", "WITHSCORES"},
+			{"RPUSH", "el2", "e" + crlf}, {"LRANGE", "el2", "0", "-1"}, {"LPOP", "el2"},
+			{"PUBSUB", "CHANNELS", crlf}, {"PUBSUB", "NUMSUB", "c" + crlf}, {"PUBLISH", "c" + crlf, "m" + crlf},
+		}
+		ec := Dial(srv.DB)
+		for _, words := range echo {
+			if err := ec.SendRaw(encodeCmd(words)); err != nil {
+				ec.Close()
+				ec = Dial(srv.DB)
+				_ = ec.SendRaw(encodeCmd(words))
+			}
+			r, ok := ec.Recv(3 * time.Second)
+			extra := 0
+			if ok {
+				if _, more := ec.Recv(5 * time.Millisecond); more {
+					extra = 1
+				}
+			}
+			// the connection is still in step: PING gets PONG and nothing else
+			pong := ec.Do("PING")
+			if !(pong.T == "simple" && string(pong.B) == "PONG") {
+				extra++
+			}
+			ev := map[string]any{"ev": "sweep", "cmd": "echo-probe", "words": strs(words), "t": r.T, "got": ok, "extra": extra, "alive": alive()}
+			if r.T == "malformed" {
+				ev["why"] = r.Why
+			}
+			tr.Emit(ev)
+			flush()
+			tot["sweep"]++
+			tot["echo_probes"]++
+			if r.T == "closed" || !ok || extra > 0 {
+				ec.Close()
+				ec = Dial(srv.DB)
+			}
+		}
+		ec.Close()
 		c.Close()
 	}
 	if *bytesMode {
